@@ -104,6 +104,9 @@ pub fn run(ctx: &Ctx) -> Result<()> {
 		let mut tiles: TileMap = gen_tiles(&mut rng, false);
 		// two different payloads of equal length with equal CRC32 (and, being incompressible, equal compressed length):
 		// content fingerprints weaker than the content must not merge them
+		// a tile of more than 64 KiB that stays that large in every encoding, between small tiles of the same block (write buffers,
+		// chunked codecs and length fields have their borders there)
+		{ let (x, y) = (rng.below(50) as u32, 62u32); tiles.insert((6, x, y), rng.bytes(20)); tiles.insert((6, x + 1, y), rng.bytes(70_000)); tiles.insert((6, x + 2, y), rng.bytes(33)); tiles.insert((6, x + 3, y), rng.bytes(66_000)); }
 		{ let (a, b) = crc_colliding_pair(&mut rng); let z = 6u8; let (x, y) = (rng.below(60) as u32, rng.below(60) as u32); tiles.insert((z, x, y), a); tiles.insert((z, x + 1, y), b); }
 		let mut tj = TileJSON::default(); let _ = tj.set_string("name", "c04 metadata ✓");
 		for s in &COMPS { for d in [None, Some(TileCompression::Uncompressed), Some(TileCompression::Gzip), Some(TileCompression::Brotli)] { for force in [false, true] { for c in containers {
